@@ -1,5 +1,5 @@
 #!/venv/bin/python
-"""eval_benign.py <Cxx> <k> [--src dir] [--checks C01,C02,...]
+"""eval_benign.py <Cxx> <k> [--src dir] [--tag t] [--checks C01,C02,...]
 
 False-alarm probe.  Takes a behaviour-preserving change written by an independent sub-agent
 (<src>/<Cxx>/patch<k>.diff + notes<k>.md; the agent was given only the text of the property and
@@ -16,7 +16,8 @@ from pathlib import Path
 pid, k = sys.argv[1], sys.argv[2]
 srcroot = sys.argv[sys.argv.index("--src") + 1] if "--src" in sys.argv else "/tmp/benign-out"
 only = sys.argv[sys.argv.index("--checks") + 1].split(",") if "--checks" in sys.argv else None
-keep = Path("/verif/benign") / f"{pid}-{k}"
+tag = sys.argv[sys.argv.index("--tag") + 1] if "--tag" in sys.argv else ""
+keep = Path("/verif/benign") / f"{pid}-{tag}{k}"
 src = Path(srcroot) / pid
 patch = src / f"patch{k}.diff" if (src / f"patch{k}.diff").exists() else keep / "patch.diff"
 notes = src / f"notes{k}.md" if (src / f"notes{k}.md").exists() else keep / "notes.md"
